@@ -83,6 +83,7 @@ func (e *Exec) callFunction(st *State, fr *Frame, site ssa.Instruction, fn *ssa.
 		if c, ok := e.db.funcs[name]; ok && !c.Inline && !(c.InlineLit && literalVariadic(fn, args)) {
 			e.usedCtr[name] = true
 			e.pendingBindings = bindings
+			e.checkCallerNoLocks(st, fr, site, c)
 			return e.applyContract(st, fr, site, c, fn, args, k)
 		}
 		if len(fn.Blocks) == 0 {
